@@ -154,22 +154,22 @@ Section Layout.
 
   (** *** routing *)
   Lemma factor_not_pd a :
-    is_pd_pred O a = Some false ->
+    is_positive_definite O a = Some false ->
     factor a = (let* (m, piv) := lu a in Some (lu_solve m piv)).
   Proof. intros H. unfold Solve.factor. rewrite H. reflexivity. Qed.
 
   Lemma factor_pd_chol a l :
-    is_pd_pred O a = Some true -> try_chol a = Some (Some l) -> factor a = Some (chol_solve l).
+    is_positive_definite O a = Some true -> try_chol a = Some (Some l) -> factor a = Some (chol_solve l).
   Proof. intros H1 H2. unfold Solve.factor. rewrite H1. cbn [bind]. rewrite H2. reflexivity. Qed.
 
   (** after the D1 repair: predicate true but a pivot not positive => the LU route *)
   Lemma factor_pd_fallback a :
-    is_pd_pred O a = Some true -> try_chol a = Some None ->
+    is_positive_definite O a = Some true -> try_chol a = Some None ->
     factor a = (let* (m, piv) := lu a in Some (lu_solve m piv)).
   Proof. intros H1 H2. unfold Solve.factor. rewrite H1. cbn [bind]. rewrite H2. reflexivity. Qed.
 
   Lemma indefinite_falls_back a b :
-    is_pd_pred O a = Some true -> try_chol a = Some None ->
+    is_positive_definite O a = Some true -> try_chol a = Some None ->
     solve a b = (let* _ := guard (length a =? length b * length b) in
                  let* (m, piv) := lu a in lu_solve m piv b).
   Proof.
@@ -178,7 +178,7 @@ Section Layout.
   Qed.
 
   Lemma not_pd_goes_lu a b :
-    is_pd_pred O a = Some false ->
+    is_positive_definite O a = Some false ->
     solve a b = (let* _ := guard (length a =? length b * length b) in
                  let* (m, piv) := lu a in lu_solve m piv b).
   Proof.
@@ -187,7 +187,7 @@ Section Layout.
   Qed.
 
   Lemma pd_chol_goes_chol a b l :
-    is_pd_pred O a = Some true -> try_chol a = Some (Some l) ->
+    is_positive_definite O a = Some true -> try_chol a = Some (Some l) ->
     solve a b = (let* _ := guard (length a =? length b * length b) in chol_solve l b).
   Proof.
     intros H1 H2. unfold Solve.solve. rewrite (factor_pd_chol a l H1 H2).
